@@ -74,6 +74,17 @@ def grep_forbidden():
         txt = re.sub(r'"(?:[^"]|"")*"', '""', txt)
         for m in FORBIDDEN.finditer(txt):
             hits.append(f"{v.relative_to(COQ)}: {m.group(0)}")
+        # Variable / Hypothesis / Context outside a Section would declare an axiom
+        sections = []
+        for m in re.finditer(r"(?m)^\s*(Section|End|Variables?|Hypothes[ie]s|Context)\b\s*([A-Za-z_0-9']*)", txt):
+            kw, name = m.group(1), m.group(2)
+            if kw == "Section":
+                sections.append(name)
+            elif kw == "End":
+                if sections and sections[-1] == name:
+                    sections.pop()
+            elif not sections:
+                hits.append(f"{v.relative_to(COQ)}: {kw} outside a Section")
     proj = (COQ / "_CoqProject").read_text()
     for m in FORBIDDEN.finditer(proj):
         hits.append(f"_CoqProject: {m.group(0)}")
